@@ -49,7 +49,7 @@ fn base_strategy() -> BoxedStrategy<c02::Case> {
         2 => (prop::collection::vec((any::<u16>(), mk), 1..5), 0u8..2).prop_map(|(m, x)| DestSpec::Populated(m, x)),
     ];
     (prop::collection::vec(src, 1..3), dest, prop::bool::weighted(0.5))
-        .prop_map(|(srcs, dest, nolinks)| c02::Case { srcs, dest, dest_spell: Spell::Plain, flags: (false, 4, None), no_target_dir: false, target_dir_opt: false, glob: GlobMode::Off, nolinks, extra: 0, dest_via_link: false })
+        .prop_map(|(srcs, dest, nolinks)| c02::Case { srcs, dest, dest_spell: Spell::Plain, flags: (false, 4, None), no_target_dir: false, target_dir_opt: false, glob: GlobMode::Off, nolinks, extra: 0, dest_via_link: false, dup_basename: false })
         .boxed()
 }
 
